@@ -145,6 +145,7 @@ def run_unit(uname, ucfg, tier, repo, verif, build, log):
         out += '\n<<wall timeout>>'
     os.makedirs(os.path.join(build, 'logs'), exist_ok=True)
     open(os.path.join(build, 'logs', f'kani_{uname}.log'), 'w').write(out)
+    _reap_solvers()
     res['checker_cmd'] = ' '.join(cmd[:cmd.index('--harness')] if '--harness' in cmd else cmd) + ' --harness <each declared harness>'
     res['wall_s'] = round(time.time() - t0, 1)
     if 'error: could not compile' in out or 'Failed to execute cargo' in out or 'error[E' in out:
@@ -193,6 +194,19 @@ def run_unit(uname, ucfg, tier, repo, verif, build, log):
     res['obligation_names'] = names
     res['verifier_output'] = [l for l in out.splitlines() if 'Failed Checks' in l or 'Verification failed' in l][:20]
     return res
+
+
+def _reap_solvers():
+    """A harness that hits its time limit under an SMT solver leaves the solver process running (orphaned, 100% CPU). Kill
+    orphaned z3/cvc5 processes working on CBMC's temporary SMT2 problem files."""
+    try:
+        out = subprocess.run(['ps', '-eo', 'pid,ppid,args'], stdout=subprocess.PIPE, text=True).stdout
+        for line in out.splitlines()[1:]:
+            parts = line.split(None, 2)
+            if len(parts) == 3 and parts[1] == '1' and 'smt2_dec_problem' in parts[2] and re.search(r'\b(z3|cvc5)\b', parts[2]):
+                subprocess.run(['kill', '-9', parts[0]])
+    except Exception:
+        pass
 
 
 def _sha_of(repo, s):
